@@ -2,7 +2,8 @@
   C04 — Every issued revision is resolved: reads never overtake a write and never stall.
   Model: KB.Sys (interleaving LTS of client requests, retry loop and sequencer). The theorems hold
   for every schedule, any number of clients, arbitrary (also future / malformed) expected revisions
-  and every placement of storage faults (`Fault` on each commit).
+  and every placement of storage faults (`Fault` on each commit). The retry loop's repair is two steps
+  (read + deal, commit + report); between them the revision it was dealt is in flight like a client's.
 -/
 import KB.Lemmas.Sys
 namespace KB.C04
@@ -20,9 +21,12 @@ def inflightRev (c : Client) : Option Nat :=
   | .deleteCommit r _ _ => some r
   | _ => none
 
+/-- The revision the retry loop has been dealt (for its rewrite) but not yet reported to the sequencer. -/
+def repairRev (g : G) : Option Nat := g.retryPc.map (·.rev)
+
 /-- Initial states: nothing in flight, the read revision has caught up. -/
 def Init (g : G) : Prop :=
-  g.committed = g.dealt ∧ g.slots = [] ∧ g.clients = [] ∧ g.retryQ = []
+  g.committed = g.dealt ∧ g.slots = [] ∧ g.clients = [] ∧ g.retryQ = [] ∧ g.retryPc = none
 
 instance (g : G) : Decidable (Init g) := by unfold Init; infer_instance
 
@@ -32,7 +36,7 @@ theorem inflightRev_eq (c : Client) : inflightRev c = c.pc.inflight := by
 
 /-- The sequencing invariant holds in every reachable state. -/
 theorem sinv {g0 g : G} (h0 : Init g0) (hr : Reachable g0 g) : SInv g.view :=
-  hr.closed SInv.closed (SInv.init h0.1 h0.2.1 h0.2.2.1)
+  hr.closed SInv.closed (SInv.init h0.1 h0.2.1 h0.2.2.1 h0.2.2.2.2)
 
 /-- The read revision never reaches the revision of a write whose storage transaction has not finished. -/
 theorem committed_lt_unfinished {g0 g : G} (h0 : Init g0) (hr : Reachable g0 g)
@@ -40,41 +44,51 @@ theorem committed_lt_unfinished {g0 g : G} (h0 : Init g0) (hr : Reachable g0 g)
   rw [inflightRev_eq] at hi
   exact (sinv h0 hr).inflR c hc r hi
 
-/-- Slot accounting: every dealt revision above the committed one is either in a filled slot or owned
-by exactly one in-flight request that will still report it — never both, never neither. -/
+/-- ... nor the revision the retry loop holds between its read and its commit. -/
+theorem committed_lt_repair {g0 g : G} (h0 : Init g0) (hr : Reachable g0 g) (r : Nat)
+    (hi : repairRev g = some r) : g.committed < r ∧ r ≤ g.dealt :=
+  (sinv h0 hr).rpcR r hi
+
+/-- Slot accounting: every dealt revision above the committed one is in a filled slot, or owned by an
+in-flight request that will still report it, or held by the retry loop between its read and its commit —
+exactly one of the three (and by exactly one request: `C02.deal_unique`). -/
 theorem slot_accounting {g0 g : G} (h0 : Init g0) (hr : Reachable g0 g) (r : Nat)
     (hlo : g.committed < r) (hhi : r ≤ g.dealt) :
-    ((∃ w ∈ g.slots, w.rev = r) ∧ ¬ ∃ c ∈ g.clients, inflightRev c = some r) ∨
-    ((¬ ∃ w ∈ g.slots, w.rev = r) ∧ ∃ c ∈ g.clients, inflightRev c = some r) := by
+    ((∃ w ∈ g.slots, w.rev = r) ∧ (¬ ∃ c ∈ g.clients, inflightRev c = some r) ∧ repairRev g ≠ some r) ∨
+    ((¬ ∃ w ∈ g.slots, w.rev = r) ∧ (∃ c ∈ g.clients, inflightRev c = some r) ∧ repairRev g ≠ some r) ∨
+    ((¬ ∃ w ∈ g.slots, w.rev = r) ∧ (¬ ∃ c ∈ g.clients, inflightRev c = some r) ∧ repairRev g = some r) := by
   have h := sinv h0 hr
   simp only [inflightRev_eq]
-  rcases h.cover r hlo hhi with hs | hc
-  · left
-    refine ⟨hs, ?_⟩
-    rintro ⟨c, hc, hi⟩
-    obtain ⟨w, hw, rfl⟩ := hs
+  have hsc : ¬ ((∃ w ∈ g.slots, w.rev = r) ∧ ∃ c ∈ g.clients, c.pc.inflight = some r) := by
+    rintro ⟨⟨w, hw, rfl⟩, c, hc, hi⟩
     exact h.slotInfl w hw c hc hi
-  · right
-    refine ⟨?_, hc⟩
-    rintro ⟨w, hw, rfl⟩
-    obtain ⟨c, hc, hi⟩ := hc
-    exact h.slotInfl w hw c hc hi
+  have hsr : ¬ ((∃ w ∈ g.slots, w.rev = r) ∧ repairRev g = some r) := by
+    rintro ⟨⟨w, hw, rfl⟩, hi⟩
+    exact h.rpcSlot w hw hi
+  have hcr : ¬ ((∃ c ∈ g.clients, c.pc.inflight = some r) ∧ repairRev g = some r) := by
+    rintro ⟨⟨c, hc, hi⟩, hp⟩
+    exact h.rpcInfl c hc r hi hp
+  rcases h.cover r hlo hhi with hs | hc | hp
+  · exact .inl ⟨hs, fun hc => hsc ⟨hs, hc⟩, fun hp => hsr ⟨hs, hp⟩⟩
+  · exact .inr (.inl ⟨fun hs => hsc ⟨hs, hc⟩, hc, fun hp => hcr ⟨hc, hp⟩⟩)
+  · exact .inr (.inr ⟨fun hs => hsr ⟨hs, hp⟩, fun hc => hcr ⟨hc, hp⟩, hp⟩)
 
 theorem committed_le_dealt {g0 g : G} (h0 : Init g0) (hr : Reachable g0 g) : g.committed ≤ g.dealt :=
   (sinv h0 hr).le
 
 /-- With nothing in flight, the slot of `committed + 1` is filled, and the sequencer consumes it
-without touching the dealt counter or the clients. -/
+without touching the dealt counter, the clients or the retry loop. -/
 theorem stepSeq_quiescent {g : G} (h : SInv g.view) (hq : ∀ c ∈ g.clients, c.pc.inflight = none)
-    (hlt : g.committed < g.dealt) :
+    (hp : g.retryPc = none) (hlt : g.committed < g.dealt) :
     (stepSeq g).committed = g.committed + 1 ∧ (stepSeq g).dealt = g.dealt ∧
-      (stepSeq g).clients = g.clients := by
+      (stepSeq g).clients = g.clients ∧ (stepSeq g).retryPc = none := by
   have hs : ∃ w ∈ g.slots, w.rev = g.committed + 1 := by
-    rcases h.cover (g.committed + 1) (Nat.lt_succ_self _) hlt with hs | ⟨c, hc, hi⟩
+    rcases h.cover (g.committed + 1) (Nat.lt_succ_self _) hlt with hs | ⟨c, hc, hi⟩ | hr
     · exact hs
     · have := hq c hc
       rw [this] at hi
       cases hi
+    · simp [G.view, hp] at hr
   obtain ⟨w, hw, hwr⟩ := hs
   unfold stepSeq
   split
@@ -85,23 +99,25 @@ theorem stepSeq_quiescent {g : G} (h : SInv g.view) (hq : ∀ c ∈ g.clients, c
     have h1 : w' ∈ g.slots := List.mem_of_find?_eq_some hw'
     have h2 : w'.rev = g.committed + 1 := by simpa using List.find?_some hw'
     have h3 := h.slotR w' h1
-    refine ⟨h2, ?_, rfl⟩
+    refine ⟨h2, ?_, rfl, hp⟩
     show max g.dealt w'.rev = g.dealt
     have : w'.rev ≤ g.dealt := h3.2
     omega
 
-/-- No stall: when no request is in flight and some revision is still unresolved, the sequencer has
-an enabled step, and that step advances the read revision by exactly one. -/
+/-- No stall: when no request is in flight, the retry loop is not in the middle of a repair and some
+revision is still unresolved, the sequencer has an enabled step, and that step advances the read revision by
+exactly one. -/
 theorem sequencer_enabled {g0 g : G} (h0 : Init g0) (hr : Reachable g0 g)
-    (hq : ∀ c ∈ g.clients, inflightRev c = none) (hlt : g.committed < g.dealt) :
+    (hq : ∀ c ∈ g.clients, inflightRev c = none) (hp : g.retryPc = none) (hlt : g.committed < g.dealt) :
     (stepSeq g).committed = g.committed + 1 := by
   simp only [inflightRev_eq] at hq
-  exact (stepSeq_quiescent (sinv h0 hr) hq hlt).1
+  exact (stepSeq_quiescent (sinv h0 hr) hq hp hlt).1
 
-/-- Once all in-flight requests have returned, running the sequencer reaches the highest revision
-handed out — for every mix of outcomes, including drift rejections and storage errors. -/
+/-- Once all in-flight requests have returned and the retry loop has finished the repair it was in the
+middle of (if any), running the sequencer reaches the highest revision handed out — for every mix of
+outcomes, including drift rejections, storage errors and repairs that lost their compare-and-swap. -/
 theorem quiescent_catches_up {g0 g : G} (h0 : Init g0) (hr : Reachable g0 g)
-    (hq : ∀ c ∈ g.clients, inflightRev c = none) :
+    (hq : ∀ c ∈ g.clients, inflightRev c = none) (hp : g.retryPc = none) :
     (run g (List.replicate (g.dealt - g.committed) Action.seq)).committed = g.dealt := by
   simp only [inflightRev_eq] at hq
   have hle := committed_le_dealt h0 hr
@@ -112,16 +128,16 @@ theorem quiescent_catches_up {g0 g : G} (h0 : Init g0) (hr : Reachable g0 g)
     omega
   | succ n ih =>
     have hlt : g.committed < g.dealt := by omega
-    obtain ⟨e1, e2, e3⟩ := stepSeq_quiescent (sinv h0 hr) hq hlt
+    obtain ⟨e1, e2, e3, e4⟩ := stepSeq_quiescent (sinv h0 hr) hq hp hlt
     have hr' : Reachable g0 (stepSeq g) := hr.step .seq
-    have := ih hr' (by rw [e3]; exact hq) (by omega) (by omega)
+    have := ih hr' e4 (by rw [e3]; exact hq) (by omega) (by omega)
     rw [e2] at this
     simpa [run, List.replicate_succ, act] using this
 
 /-- The full invariant (sequencing and finished-request log) holds in every state reachable from an
 initial state whose ghost log of finished requests is empty. -/
 theorem finv {g0 g : G} (h0 : Init g0) (hd0 : g0.done = []) (hr : Reachable g0 g) : FInv g.view :=
-  hr.closed FInv.closed ⟨SInv.init h0.1 h0.2.1 h0.2.2.1, DInv.init hd0⟩
+  hr.closed FInv.closed ⟨SInv.init h0.1 h0.2.1 h0.2.2.1 h0.2.2.2.2, DInv.init hd0⟩
 
 /-- Every request that returned consumed exactly one revision and reported it: nothing it dealt is
 left unresolved (in particular the revision-drift rejections). (`hd0`: the ghost log of finished
@@ -142,5 +158,27 @@ def exSched : List Action :=
 example : Init ex0 := by decide
 example : (run ex0 exSched).committed = 1000 ∧ (run ex0 exSched).dealt = 1003 ∧
     ((run ex0 exSched).slots.map (·.rev)) = [1002, 1003] := by decide
+
+/-! The retry loop between its read and its commit: request 1's create lands with an unknown outcome and is
+queued; the retry loop reads and is dealt revision 1002; request 2 creates another key at 1003 and returns.
+Revision 1002 is in no slot and owned by no request — it is the retry loop's (`slot_accounting`, third case). -/
+def exRepair : List Action :=
+  [ .begin 1 (.create [47, 97] [1]), .step 1 .none, .step 1 .uncApplied, .seq, .retryRead,
+    .begin 2 (.create [47, 98] [2]), .step 2 .none, .step 2 .none ]
+example : repairRev (run ex0 exRepair) = some 1002 ∧ (run ex0 exRepair).committed = 1001 ∧
+    (run ex0 exRepair).dealt = 1003 ∧ ((run ex0 exRepair).slots.map (·.rev)) = [1003] ∧
+    (run ex0 exRepair).clients = [] := by decide
+
+/-- `quiescent_catches_up` (and `sequencer_enabled`) without the hypothesis that the retry loop is not in the
+middle of a repair is false for the non-atomic repair: in the state above no request is in flight, yet the read
+revision cannot pass 1001 — until the repair commits (whatever its outcome), after which it catches up. -/
+theorem quiescent_catches_up_needs_idle_repair :
+    Init ex0 ∧ (∀ c ∈ (run ex0 exRepair).clients, inflightRev c = none) ∧ (run ex0 exRepair).retryPc ≠ none ∧
+      (run (run ex0 exRepair) (List.replicate ((run ex0 exRepair).dealt - (run ex0 exRepair).committed) Action.seq)).committed
+        < (run ex0 exRepair).dealt ∧
+      (run (act (run ex0 exRepair) (.retryCommit .err))
+        (List.replicate ((run ex0 exRepair).dealt - (run ex0 exRepair).committed) Action.seq)).committed
+        = (run ex0 exRepair).dealt := by
+  decide
 
 end KB.C04
